@@ -486,12 +486,14 @@ func main() {
 			if hi > ngraphs {
 				hi = ngraphs
 			}
-			gens = append(gens, vexplore.Generator{Name: fmt.Sprintf("drain graphs %d..%d", lo, hi-1), Gen: func(yield func(*vexplore.Scenario)) {
+			gens = append(gens, vexplore.Generator{Name: fmt.Sprintf("drain graphs %d..%d", lo, hi-1), Gen: func(yield func(*vexplore.Scenario) bool) {
 				for gi := lo; gi < hi; gi++ {
 					g := graphAt(n, twoFor, gi)
 					for _, rq := range reqs {
 						sc := drainScenario(g, rq)
-						yield(&sc)
+						if !yield(&sc) {
+							return
+						}
 					}
 				}
 			}})
@@ -536,7 +538,7 @@ func main() {
 		ntyped := 0
 		for a := range lists {
 			a := a
-			gens = append(gens, vexplore.Generator{Name: fmt.Sprintf("typed members, first version list %d", a), Gen: func(yield func(*vexplore.Scenario)) {
+			gens = append(gens, vexplore.Generator{Name: fmt.Sprintf("typed members, first version list %d", a), Gen: func(yield func(*vexplore.Scenario) bool) {
 				for b := range lists {
 					r1, w1 := split(lists[a])
 					r2, w2 := split(lists[b])
@@ -552,7 +554,9 @@ func main() {
 							for _, rq := range typedReqs {
 								sc := drainScenario(g, rq)
 								sc.Family = "drain-typed"
-								yield(&sc)
+								if !yield(&sc) {
+									return
+								}
 							}
 						}
 					}
